@@ -8,7 +8,8 @@
 //!   {"comp":"dyn"|"inst"|"arch", "mode":"none"|"zlib"|"lz4", "compress":bool,
 //!    "payloads":[["a","plain",300], ...],            name, class, nominal length
 //!    "ops":[{"op":"write","p":"a"}, {"op":"read","p":"a"}, {"op":"remove","p":"a"},
-//!           {"op":"flush"}, {"op":"flushb","p":"a"}, {"op":"reopen"}, {"op":"compact"}]}
+//!           {"op":"flush"}, {"op":"flushb","p":"a"}, {"op":"reopen"}, {"op":"reopen","ro":true},
+//!           {"op":"compact"}]}
 //! After the last operation every payload of the table is read once more ("audit":1).
 //!
 //! Component "dyn":  Container::write/read/query/remove on a DynamicContainer, flush_all_updates /
@@ -175,13 +176,14 @@ impl World {
         }
         n
     }
-    fn open(&mut self) -> String {
+    fn open(&mut self, read_only: bool) -> String {
         // the old object is dropped first: "closing" the installation / container
         self.sut = Sut::Dead("closed".into());
         let root = self.root.clone();
         let r: Result<Sut, StorageError> = match self.comp.as_str() {
             "dyn" => (|| -> Result<Sut, StorageError> {
-                let c = DynamicContainer::new(AccessMode::ReadWrite, root, false, 100, 1 << 30, false)?;
+                let am = if read_only { AccessMode::ReadOnly } else { AccessMode::ReadWrite };
+                let c = DynamicContainer::new(am, root, false, 100, 1 << 30, false)?;
                 self.rt.block_on(c.open())?;
                 Ok(Sut::Dyn(c))
             })(),
@@ -280,7 +282,8 @@ impl World {
             Sut::Dyn(c) => {
                 // room for more than was written, so that surplus bytes are seen
                 let mut buf = vec![0u8; p.data.len() + 64];
-                match rt.block_on(c.read(&key, 0, 0, &mut buf)) {
+                // offset 0, len = the whole buffer: "everything" whether or not an implementation honours len
+                match rt.block_on(c.read(&key, 0, buf.len() as u32, &mut buf)) {
                     Ok(n) => {
                         buf.truncate(n);
                         ("ok".into(), Some(buf))
@@ -370,7 +373,7 @@ fn run_program(prog: &Value, out: &Emit) {
     if comp == "arch" {
         std::fs::create_dir_all(&w.root).expect("mkdir");
     }
-    let opened = guarded(|| w.open()).unwrap_or_else(|_| "panic".into());
+    let opened = guarded(|| w.open(false)).unwrap_or_else(|_| "panic".into());
     out.ev(json!({"op": "new", "comp": comp, "mode": mode_s, "compress": compress, "res": opened,
                   "payloads": prog["payloads"].clone()}));
     let mut seq = 0u64;
@@ -421,7 +424,7 @@ fn run_program(prog: &Value, out: &Emit) {
             "flush" => ev["res"] = json!(w.flush(None)),
             "flushb" => ev["res"] = json!(w.flush(Some(pay.expect("p")))),
             "compact" => ev["res"] = json!(w.compact()),
-            "reopen" => ev["res"] = json!(w.open()),
+            "reopen" => ev["res"] = json!(w.open(op.get("ro").and_then(Value::as_bool).unwrap_or(false))),
             other => panic!("driver: unknown op {other}"),
         });
         if let Err(m) = r {
@@ -509,7 +512,7 @@ fn random_program(rng: &mut Rng, len: usize) -> Value {
             let i = if rng.chance(1, 12) { rng.below(npay as u64) as usize } else { *rng.pick(&written) };
             json!({"op": "read", "p": pname(i)})
         } else if x < 88 {
-            json!({"op": "reopen"})
+            if comp == "dyn" && rng.chance(1, 5) { json!({"op": "reopen", "ro": true}) } else { json!({"op": "reopen"}) }
         } else if comp == "dyn" && x < 93 {
             json!({"op": "remove", "p": pname(*rng.pick(&written))})
         } else if comp == "dyn" && x < 97 {
@@ -545,10 +548,20 @@ fn main() {
             programs.push(prog);
         }
     }
-    let timeout = std::time::Duration::from_secs(arg_u64(&args, "--timeout", 10));
+    let timeout = std::time::Duration::from_secs(arg_u64(&args, "--timeout", 60));
+    let mut counts: std::collections::BTreeMap<String, u64> = std::collections::BTreeMap::new();
+    for p in &programs {
+        for op in p["ops"].as_array().expect("ops") {
+            *counts.entry(format!("n_{}", op["op"].as_str().unwrap_or("?"))).or_insert(0) += 1;
+        }
+    }
     let st = run_with_watchdog(programs, &mut out, timeout, run_program);
     out.flush();
-    eprintln!("{}", json!({"programs": st.programs, "events": out.events, "hangs": st.hangs, "skipped": st.skipped}));
+    let mut summary = json!({"programs": st.programs, "events": out.events, "hangs": st.hangs, "skipped": st.skipped});
+    for (k, v) in counts {
+        summary[k] = json!(v);
+    }
+    eprintln!("{summary}");
     if st.skipped > 0 {
         std::process::exit(3);
     }
